@@ -136,7 +136,7 @@ func (x *Exec) doConvert(st *State, ins *ssa.Convert) {
 	case isInteger(from) && isInteger(to):
 		x.set(st, ins, VT{x.convertInt(st, v.(VT).T, from, to, ins.Pos()), to})
 	case isInteger(from) && isFloat(to):
-		x.set(st, ins, VFlt{v.(VT).T, term.I(1)})
+		x.set(st, ins, VFlt{N: v.(VT).T, D: term.I(1)})
 	case isFloat(from) && isFloat(to):
 		x.set(st, ins, v)
 	case isFloat(from) && isInteger(to):
